@@ -11,6 +11,7 @@ import (
 	"fmt"
 	"io"
 	"net/http"
+	"runtime/debug"
 	"sort"
 	"strings"
 	"sync"
@@ -415,17 +416,67 @@ func c19CheckOne(parse c19Parser, kind c19Kind, fs []c19Field, decodeErr bool, f
 	return c19Out{cls, pred}, nil
 }
 
+// c19DiffTag names the first "label=" segment in which two renderings differ.
 func c19DiffTag(got, want string) string {
-	g, w := strings.Fields(got), strings.Fields(want)
+	seg := func(s string) (out []string) {
+		for _, t := range strings.Split(s, " ") {
+			j := strings.IndexByte(t, '=')
+			isLabel := j > 0
+			for k := 0; isLabel && k < j; k++ {
+				isLabel = t[k] >= 'a' && t[k] <= 'z'
+			}
+			if isLabel || len(out) == 0 {
+				out = append(out, t)
+			} else {
+				out[len(out)-1] += " " + t
+			}
+		}
+		return out
+	}
+	g, w := seg(got), seg(want)
 	for i := range g {
 		if i >= len(w) || g[i] != w[i] {
 			if j := strings.IndexByte(g[i], '='); j > 0 {
 				return g[i][:j]
 			}
-			return "header"
+			break
 		}
 	}
 	return "shape"
+}
+
+// c19Guard turns a panic of the code under test into a violation keyed by the panicking
+// function (the library would only know the case index, which is not this harness' replay).
+func c19Guard(run func() *explore.Fail) (f *explore.Fail) {
+	defer func() {
+		if x := recover(); x != nil {
+			if fmt.Sprintf("%T", x) == "explore.harnessErr" { // explore.Must: a harness bug, not a verdict
+				panic(x)
+			}
+			site := "unknown"
+			lines := strings.Split(string(debug.Stack()), "\n")
+			seenPanic := false
+			for _, l := range lines {
+				if strings.HasPrefix(l, "panic(") {
+					seenPanic = true
+					continue
+				}
+				if !seenPanic || strings.HasPrefix(l, "\t") || strings.HasPrefix(l, "runtime.") || strings.Contains(l, ".c19") || strings.Contains(l, "verifmc") {
+					continue
+				}
+				if j := strings.LastIndex(l, "("); j > 0 {
+					l = l[:j]
+				}
+				if j := strings.LastIndex(l, "/"); j >= 0 {
+					l = l[j+1:]
+				}
+				site = l
+				break
+			}
+			f = explore.Failf("panic:"+site, "panic in the code under test: %v", x)
+		}
+	}()
+	return run()
 }
 
 const c19NoLimit = 1 << 20
@@ -462,6 +513,21 @@ func c19RunCase(ctx *c19Ctx, seq []int) (out c19OutKey, fail *explore.Fail, exec
 	return out, nil, execs, nil
 }
 
+func c19RunCaseGuarded(ctx *c19Ctx, seq []int) (out c19OutKey, fail *explore.Fail, execs int64, human []string) {
+	fail = c19Guard(func() *explore.Fail {
+		out, fail, execs, human = c19RunCase(ctx, seq)
+		return fail
+	})
+	if fail != nil && human == nil {
+		fs, de := c19Expand(ctx, seq)
+		human = c19Human(fs, de)
+	}
+	if execs == 0 {
+		execs = 1
+	}
+	return out, fail, execs, human
+}
+
 func c19FieldsPart(name string, kind c19Kind) explore.Part {
 	return c19SeqPart(name, func(e explore.Env) []c19Ctx { return c19Contexts(kind, e.Thorough()) },
 		"the real "+[...]string{"requestFromHeaders", "updateResponseFromHeaders", "parseTrailers"}[kind]+" with a list-backed qpack.DecodeFunc")
@@ -478,7 +544,7 @@ func c19SeqPart(name string, ctxs func(e explore.Env) []c19Ctx, through string) 
 			rep := explore.RunCases(e, sp.total, 0, true, func(i int) explore.CaseResult {
 				ci, seq := sp.decode(i)
 				ctx := &sp.ctxs[ci]
-				out, f, execs, human := c19RunCase(ctx, seq)
+				out, f, execs, human := c19RunCaseGuarded(ctx, seq)
 				if f != nil {
 					col.add(i, f, c19Replay{ctx.Name, seq}, human)
 				} else {
@@ -508,7 +574,7 @@ func c19SeqPart(name string, ctxs func(e explore.Env) []c19Ctx, through string) 
 				if ctx.Name != r.Ctx {
 					continue
 				}
-				_, f, _, human := c19RunCase(&ctx, r.Seq)
+				_, f, _, human := c19RunCaseGuarded(&ctx, r.Seq)
 				if f == nil {
 					return nil
 				}
